@@ -14,7 +14,10 @@ VARIABLE prog             \* [prof, a, b]
 Ms(c, v) == [op |-> "MSTORE", c |-> c, v |-> v]
 Cl(kind, to, io, il, oo, ol) == [op |-> "CALL", kind |-> kind, to |-> to, io |-> io, il |-> il, oo |-> oo, ol |-> ol]
 C1(init, val) == [op |-> "CREATE", init |-> init, val |-> val]
-C2(init, val) == [op |-> "CREATE2", init |-> init, val |-> val]
+C2(init, val) == [op |-> "CREATE2", init |-> init, val |-> val, salt |-> 0]          \* salt 0: distinct per step
+C2s(init, val, salt) == [op |-> "CREATE2", init |-> init, val |-> val, salt |-> salt]
+Ss(k, v) == [op |-> "SSTORE", k |-> k, v |-> v]
+Sl(k, c) == [op |-> "SLOAD", k |-> k, c |-> c]
 Rs(c) == [op |-> "RDSIZE", c |-> c]
 Rc(d, o, l) == [op |-> "RDCOPY", d |-> d, o |-> o, l |-> l]
 Cd(d, l) == [op |-> "CDCOPY", d |-> d, l |-> l]
@@ -72,12 +75,33 @@ Prof ==
                        \cup {Lg(3, 0, 3), Ret(0, 3), Rev(0, 2), T("INVALID")},
              len |-> 6] ]
 
-Init == \E p \in Profiles : \E b \in Prof[p].bs : prog = [prof |-> p, a |-> <<>>, b |-> b]
+\* hand-picked programs (profile "fixed"): enumerated as initial states, never extended
+IKeep == <<Sl(1, 0), Ss(1, 5)>>          \* constructor: reads slot 1 into memory, writes 5, deploys EMPTY code
+Fixed ==
+  { \* known finding create2-collision-empty-code: the same CREATE2 address twice, the first creation deployed empty code
+    [prof |-> "fixed", a |-> <<C2s(<<>>, 0, 7), C2s(<<>>, 0, 7)>>, b |-> <<>>],
+    \* .. and the second constructor run sees the storage the first one left
+    [prof |-> "fixed", a |-> <<C2s(IKeep, 0, 7), C2s(IKeep, 0, 7), Rs(2)>>, b |-> <<>>],
+    \* control: the first creation deployed code - the second one collides for the reference and for thor alike
+    [prof |-> "fixed", a |-> <<C2s(IRet, 0, 7), C2s(IRet, 0, 7), Rs(2)>>, b |-> <<>>],
+    \* control: the first creation reverted - no collision, the address is free again
+    [prof |-> "fixed", a |-> <<C2s(IRev, 0, 7), C2s(IRev, 0, 7), Rs(2)>>, b |-> <<>>],
+    \* storage written by a reverting callee is gone, storage of a succeeding one is read back
+    [prof |-> "fixed", a |-> <<Cl("CALL", "B", 0, 0, 0, 0), Ss(1, 9), Sl(1, 1), Cl("CALL", "B", 0, 0, 0, 1)>>,
+                       b |-> <<Sl(1, 0), Ss(1, 6), Ret(0, 1)>>] }
+
+Init == \/ ("fixed" \in Profiles /\ prog \in Fixed)
+        \/ \E p \in Profiles \ {"fixed"} : \E b \in Prof[p].bs : prog = [prof |-> p, a |-> <<>>, b |-> b]
 Next == LET P == Prof[prog.prof] IN
+        /\ prog.prof # "fixed"
         /\ Len(prog.a) < P.len
         /\ (prog.a # <<>> => prog.a[Len(prog.a)].op \notin Ends)
         /\ \E st \in P.steps : prog' = [prog EXCEPT !.a = Append(@, st)]
 
-InvBufferLaw == BufferLaw(Outcome(prog))
-Export == PrintT(<<"MEM", ToJson([prog |-> prog, exp |-> Obs(Outcome(prog))])>>)
+InvBufferLaw == BufferLaw(Outcome("reference", prog))
+\* the "thor" outcome can differ only where a CREATE2 address repeats, i.e. in hand-picked programs
+Beh == LET e == Obs(Outcome("reference", prog))
+           t == IF prog.prof = "fixed" THEN Obs(Outcome("thor", prog)) ELSE e
+       IN IF t = e THEN [prog |-> prog, exp |-> e] ELSE [prog |-> prog, exp |-> e, thor |-> t]
+Export == PrintT(<<"MEM", ToJson(Beh)>>)
 ====
